@@ -4,7 +4,6 @@ import TongoProofs.Lemmas.HashMemo
 import TongoProofs.Lemmas.CellNoPanic
 import TongoProofs.Lemmas.CellErr
 import TongoProofs.C07
-import TongoProofs.C16
 import TongoGen.LevelMask
 import TongoGen.CellDesc
 import TongoProofs.Lemmas.GenTiesA
@@ -262,24 +261,6 @@ theorem forms_eq_spec (H : List UInt8 → List UInt8) (c : Cell) (hwf : Spec.WFE
     rw [List.take_of_length_le (by omega)]
   · simp only [Cell.hashString, e, Outcome.bind_ok, pure]
   · simp only [Cell.level, Spec.cellLevel, (level_facts c.mask hm).1]
-
-/-- **The hash field of a decoded message / transaction is the hash of the definition** (composition with C16, agent
-msg: `C16.msg_hash_is_cell_hash`, `C16.tx_hash_is_cell_hash` say the field is `Cell.reprHash` of the source cell; C02
-says that is the representation hash of the TON definition). -/
-theorem msg_tx_hash_is_spec (H : List UInt8 → List UInt8) (c : Cell) (hwf : Spec.WFExotic c)
-    (hd : Spec.tooDeep c = false) :
-    (∀ m, Message.unmarshalMessage H c = .ok m → m.hash = Spec.reprHash H c) ∧
-    (∀ t, Message.captureTx H c = .ok t → t.hash = Spec.reprHash H c ∧ t.source = c) := by
-  have e := reprHash_eq_spec H c hwf hd
-  constructor
-  · intro m hm
-    have := C16.msg_hash_is_cell_hash H c m hm
-    rw [e] at this
-    injection this with this; exact this.symm
-  · intro t ht
-    obtain ⟨h1, h2⟩ := C16.tx_hash_is_cell_hash H c t ht
-    rw [e] at h1
-    injection h1 with h1; exact ⟨h1.symm, h2⟩
 
 /-- **Hashing the cells of any parsed bag of cells is total and agrees with the definition** (composition with C07,
 agent boc's `parseBoc`/`parse_sound`). For every byte string: if the model of `DeserializeBoc` returns cells, then every
